@@ -58,6 +58,8 @@ SPEC_FAMILY = {
     "computed_plus": ('<start> ::= <record>+\n<record> ::= <len> <item>{int(<len>)} ";"\n<len> ::= "1" | "2"\n<item> ::= "a"\n',
                       ["1a;", "1a;2aa;", "2a;"]),
     "left_rec_plain": ('<start> ::= <e>\n<e> ::= <e> "+" <t> | <t>\n<t> ::= <t> "*" <f> | <f>\n<f> ::= "1" | "(" <e> ")"\n', ["1+1*1", "(1+1)*1", "1+"]),
+    "left_rec_empty_tail": ('<start> ::= <line> "!"\n<line> ::= <line> <pad> | "y"\n<pad> ::= " "?\n', ["y!", "y !", "y"]),
+    "option_group_bounded": ('<start> ::= (<a>?){0,3} "x"\n<a> ::= "a"\n', ["ax", "x", "aax"]),
     "ambiguous_concat": ('<start> ::= <s>\n<s> ::= <s> <s> | "a"\n', ["aaaa", "aaaaa"]),
 }
 
@@ -81,6 +83,16 @@ elif mode == "forest":
     for t in g.parse_forest(w):
         n += 1
         if n >= 50: break
+elif mode == "forest_twice":
+    # the same whole-forest request twice on the same grammar object (the second one is served from the parser's cache)
+    n = 0
+    for t in g.parse_forest(w):
+        n += 1
+        if n >= 400: break
+    if n < 400:
+        # the forest is finite and was consumed to its end: the same request again has to end as well (no cap here)
+        for t in g.parse_forest(w):
+            n += 1
 else:
     n = 0
     for t in g.parse_forest(w, mode=ParsingMode.INCOMPLETE):
@@ -158,6 +170,7 @@ def run(tier="quick", seed=0, pid="C06"):
         for w in (words if tier != "quick" else words[:2]):
             for m in (MODES if tier != "quick" else ("first", "forest", "prefix")):
                 cases.append(("spec:" + name, "", w, m))
+            cases.append(("spec:" + name, "", w, "forest_twice"))
     results = []
     with ThreadPoolExecutor(max_workers=min(16, os.cpu_count() or 4)) as ex:
         results = list(ex.map(lambda c: run_case(c, budget), cases))
